@@ -336,22 +336,22 @@ func CmdCheck(args []string) int {
 		"wall_s":      round3(wall),
 		"violations":  len(seenViol),
 		"coverage": map[string]interface{}{
-			"obligations":                total,
-			"discharged":                 discharged,
-			"obligations_trivial":        trivial,
-			"obligations_known_failing":  knownList,
-			"checker_cmd":                "z3-new -T:" + strconv.Itoa(timeout) + " <vc>.smt2  (then cvc5 / z3 4.8.12 raced on unknown); VCs generated by /verif/bin/dgv check -prop " + *prop + " -tier " + *tier + crossNote,
-			"trusted_base":               tb,
-			"functions_under_contract":   funcs,
-			"functions_tagged":           tagged,
-			"paths":                      paths,
-			"per_backend":                stats.PerSolver,
-			"solver_seconds":             round3(solverSecs),
-			"load_seconds":               round3(loadSecs),
-			"spec_source":                e.SpecSource,
-			"engine_errors":              engineErrs,
-			"samples":                    samples,
-			"explanation":                "each obligation is one SMT query (negated goal under the path condition) generated from go/ssa of the current /repo tree; discharged = unsat on some back end (covers: sat)",
+			"obligations":               total,
+			"discharged":                discharged,
+			"obligations_trivial":       trivial,
+			"obligations_known_failing": knownList,
+			"checker_cmd":               "z3-new -T:" + strconv.Itoa(timeout) + " <vc>.smt2  (then cvc5 / z3 4.8.12 raced on unknown); VCs generated by /verif/bin/dgv check -prop " + *prop + " -tier " + *tier + crossNote,
+			"trusted_base":              tb,
+			"functions_under_contract":  funcs,
+			"functions_tagged":          tagged,
+			"paths":                     paths,
+			"per_backend":               stats.PerSolver,
+			"solver_seconds":            round3(solverSecs),
+			"load_seconds":              round3(loadSecs),
+			"spec_source":               e.SpecSource,
+			"engine_errors":             engineErrs,
+			"samples":                   samples,
+			"explanation":               "each obligation is one SMT query (negated goal under the path condition) generated from go/ssa of the current /repo tree; discharged = unsat on some back end (covers: sat)",
 		},
 		"assumptions": tb,
 	}
@@ -388,16 +388,16 @@ func (e *Engine) writeReplay(verif, prop string, o *Oblig) string {
 		out = out[:20000]
 	}
 	rec := map[string]interface{}{
-		"property":   prop,
-		"obligation": o.ID,
-		"kind":       o.Kind,
-		"function":   o.Fn,
-		"position":   o.Pos,
-		"path":       o.Path,
-		"verdict":    o.Verdict,
-		"solver":     o.Solver,
+		"property":      prop,
+		"obligation":    o.ID,
+		"kind":          o.Kind,
+		"function":      o.Fn,
+		"position":      o.Pos,
+		"path":          o.Path,
+		"verdict":       o.Verdict,
+		"solver":        o.Solver,
 		"solver_output": out,
-		"smt2":       smt,
+		"smt2":          smt,
 	}
 	if o.Verdict == "sat" && e.Replayer != nil {
 		inputs, ok, log := e.Replayer(o)
